@@ -1,3 +1,358 @@
-//! C53 — stub, to be implemented.
-use vcore::Ctx;
-pub fn run(_ctx: &mut Ctx) {}
+//! C53 — allow and block lists are enforced.
+//!
+//! `libp2p_allow_block_list::Behaviour<BlockedPeers>` / `<AllowedPeers>` are composed with a `Probe`
+//! (block+probe, allow+probe, probe+block+allow) and driven by the shared world interpreter. The harness
+//! changes the lists between Swarm polls, so "after the list change took effect" = the API call returned
+//! before the poll in which the connection would be reported established.
+use crate::life::{self, Case, Ext, NodeModel, Weights};
+use libp2p_allow_block_list::{AllowedPeers, Behaviour as ListBehaviour, BlockedPeers};
+use libp2p_identity::PeerId;
+use libp2p_swarm::NetworkBehaviour;
+use proptest::prelude::*;
+use serde::{Deserialize, Serialize};
+use serde_json::{json, Value};
+use simswarm::probe::{Entry, ErrKind, Probe, ProbeScript, SharedLog, FS};
+use simswarm::world::{Ev, Probes, World};
+use std::collections::BTreeSet;
+use vcore::{gen, Ctx, Outcome};
+
+#[derive(NetworkBehaviour)]
+#[behaviour(prelude = "libp2p_swarm::derive_prelude")]
+pub struct BlockProbe {
+    block: ListBehaviour<BlockedPeers>,
+    probe: Probe,
+}
+
+#[derive(NetworkBehaviour)]
+#[behaviour(prelude = "libp2p_swarm::derive_prelude")]
+pub struct AllowProbe {
+    allow: ListBehaviour<AllowedPeers>,
+    probe: Probe,
+}
+
+#[derive(NetworkBehaviour)]
+#[behaviour(prelude = "libp2p_swarm::derive_prelude")]
+pub struct ProbeBlockAllow {
+    probe: Probe,
+    block: ListBehaviour<BlockedPeers>,
+    allow: ListBehaviour<AllowedPeers>,
+}
+
+pub trait HasLists {
+    fn block(&mut self) -> Option<&mut ListBehaviour<BlockedPeers>>;
+    fn allow(&mut self) -> Option<&mut ListBehaviour<AllowedPeers>>;
+}
+
+macro_rules! probes {
+    ($t:ty) => {
+        impl Probes for $t {
+            fn fields(&self) -> usize {
+                1
+            }
+            fn probe(&mut self, _f: usize) -> &mut Probe {
+                &mut self.probe
+            }
+        }
+    };
+}
+probes!(BlockProbe);
+probes!(AllowProbe);
+probes!(ProbeBlockAllow);
+
+impl HasLists for BlockProbe {
+    fn block(&mut self) -> Option<&mut ListBehaviour<BlockedPeers>> {
+        Some(&mut self.block)
+    }
+    fn allow(&mut self) -> Option<&mut ListBehaviour<AllowedPeers>> {
+        None
+    }
+}
+impl HasLists for AllowProbe {
+    fn block(&mut self) -> Option<&mut ListBehaviour<BlockedPeers>> {
+        None
+    }
+    fn allow(&mut self) -> Option<&mut ListBehaviour<AllowedPeers>> {
+        Some(&mut self.allow)
+    }
+}
+impl HasLists for ProbeBlockAllow {
+    fn block(&mut self) -> Option<&mut ListBehaviour<BlockedPeers>> {
+        Some(&mut self.block)
+    }
+    fn allow(&mut self) -> Option<&mut ListBehaviour<AllowedPeers>> {
+        Some(&mut self.allow)
+    }
+}
+
+#[derive(Clone, Debug, Serialize, Deserialize)]
+pub struct ACase {
+    /// 0 = {block, probe}, 1 = {allow, probe}, 2 = {probe, block, allow}
+    pub mode: u8,
+    /// per node: bit k set = gen::peer(k) is blocked from the start
+    pub blocked: Vec<u8>,
+    /// per node: bit k set = gen::peer(k) is allowed from the start (modes with an allow list)
+    pub allowed: Vec<u8>,
+    pub base: Case,
+}
+
+fn bits(b: u8) -> BTreeSet<PeerId> {
+    (0..8).filter(|k| b >> k & 1 == 1).map(gen::peer).collect()
+}
+
+#[derive(Default)]
+struct ListExt {
+    has_block: bool,
+    has_allow: bool,
+    blocked: Vec<BTreeSet<PeerId>>,
+    allowed: Vec<BTreeSet<PeerId>>,
+    seen_log: usize,
+    seen_ev: Vec<usize>,
+    /// (node, peer, conn): connections that existed when the peer became blocked / disallowed
+    must_close: Vec<(usize, PeerId, u64)>,
+    // statistics
+    change_while_established: u32,
+    change_while_pending: u32,
+    changes: u32,
+    lifted: u32,
+}
+
+impl ListExt {
+    fn permitted(&self, node: usize, p: &PeerId) -> Result<(), &'static str> {
+        if self.has_block && self.blocked[node].contains(p) {
+            return Err("blocked");
+        }
+        if self.has_allow && !self.allowed[node].contains(p) {
+            return Err("not-allowed");
+        }
+        Ok(())
+    }
+}
+
+/// established-and-not-closed connections of `peer` at `node` as seen by the probe (FromSwarm view)
+fn live_in_log(log: &SharedLog, node: usize, peer: &PeerId) -> BTreeSet<u64> {
+    let l = log.lock().unwrap();
+    let mut live = BTreeSet::new();
+    for r in l.recs.iter().filter(|r| r.node == node as u8 && r.field == 0) {
+        match &r.entry {
+            Entry::Swarm(FS::Established { conn, peer: p, .. }) if p == peer => {
+                live.insert(*conn);
+            }
+            Entry::Swarm(FS::Closed { conn, .. }) => {
+                live.remove(conn);
+            }
+            _ => {}
+        }
+    }
+    live
+}
+
+impl<B: Probes + HasLists> Ext<B> for ListExt {
+    fn op(&mut self, w: &mut World<B>, m: &[NodeModel], node: usize, kind: u8, arg: u8) {
+        let p = gen::peer(arg as usize % 8);
+        // map the op kind onto the lists this behaviour has
+        let kind = match (self.has_block, self.has_allow) {
+            (true, false) => kind % 2,
+            (false, true) => 2 + kind % 2,
+            _ => kind % 4,
+        };
+        let before = self.permitted(node, &p).is_ok();
+        let b = w.nodes[node].swarm.behaviour_mut();
+        match kind {
+            0 => {
+                b.block().expect("has block list").block_peer(p);
+                self.blocked[node].insert(p);
+            }
+            1 => {
+                b.block().expect("has block list").unblock_peer(p);
+                self.blocked[node].remove(&p);
+            }
+            2 => {
+                b.allow().expect("has allow list").allow_peer(p);
+                self.allowed[node].insert(p);
+            }
+            _ => {
+                b.allow().expect("has allow list").disallow_peer(p);
+                self.allowed[node].remove(&p);
+            }
+        }
+        let after = self.permitted(node, &p).is_ok();
+        if before && !after {
+            // the peer became blocked / disallowed: every connection that exists now has to be closed
+            self.changes += 1;
+            let mut live: BTreeSet<u64> = m[node].est.get(&p).cloned().unwrap_or_default();
+            live.extend(live_in_log(&w.log, node, &p));
+            if !live.is_empty() {
+                self.change_while_established += 1;
+            }
+            for c in live {
+                self.must_close.push((node, p, c));
+            }
+            if m[node].ids.values().any(|x| x.handed_out && x.terminal.is_empty() && x.outbound && x.expected == Some(p)) {
+                self.change_while_pending += 1;
+            }
+        } else if !before && after {
+            self.lifted += 1;
+        }
+    }
+
+    fn observe(&mut self, w: &mut World<B>, _m: &[NodeModel], _i: usize, when: &str) -> Option<(String, Value)> {
+        // every establishment reported to the probe since the last observation is judged by the lists of its node as
+        // they are now: lists only change through `op`, which is followed by an observation before any poll
+        let new: Vec<(u8, u64, PeerId)> = {
+            let l = w.log.lock().unwrap();
+            let v = l.recs[self.seen_log..].iter().filter(|r| r.field == 0).filter_map(|r| if let Entry::Swarm(FS::Established { conn, peer, .. }) = &r.entry { Some((r.node, *conn, *peer)) } else { None }).collect();
+            self.seen_log = l.recs.len();
+            v
+        };
+        for (node, conn, peer) in new {
+            if let Err(why) = self.permitted(node as usize, &peer) {
+                return Some((format!("C53:connection-to-{why}-peer-reported-established-to-behaviour"), json!({"node": node, "conn": conn, "peer": peer.to_string(), "when": when})));
+            }
+        }
+        for node in 0..w.nodes.len() {
+            let from = self.seen_ev[node];
+            self.seen_ev[node] = w.nodes[node].events.len();
+            for e in &w.nodes[node].events[from..] {
+                if let Ev::Established { conn, peer, .. } = e {
+                    if let Err(why) = self.permitted(node, peer) {
+                        return Some((format!("C53:connection-to-{why}-peer-established"), json!({"node": node, "conn": conn, "peer": peer.to_string(), "when": when})));
+                    }
+                }
+            }
+        }
+        None
+    }
+
+    fn finish(&mut self, w: &mut World<B>, m: &[NodeModel]) -> Option<(String, Value)> {
+        // quiescence: connections that existed when a peer became blocked / disallowed are closed
+        for (node, peer, conn) in &self.must_close {
+            let closed_ev = m[*node].ids.get(conn).map(|x| x.closed > 0).unwrap_or(false);
+            let closed_fs = !live_in_log(&w.log, *node, peer).contains(conn);
+            if !closed_ev || !closed_fs {
+                return Some(("C53:connection-existing-at-block-or-disallow-not-closed".into(), json!({"node": node, "peer": peer.to_string(), "conn": conn, "closed_event": closed_ev, "closed_reported_to_behaviour": closed_fs})));
+            }
+        }
+        for node in 0..w.nodes.len() {
+            for p in gen::peers().iter().take(8) {
+                if self.permitted(node, p).is_err() && w.nodes[node].swarm.is_connected(p) {
+                    return Some(("C53:connected-to-blocked-or-disallowed-peer-at-quiescence".into(), json!({"node": node, "peer": p.to_string(), "why": self.permitted(node, p).err()})));
+                }
+            }
+        }
+        None
+    }
+}
+
+fn script_for(case: &Case, node: usize) -> ProbeScript {
+    ProbeScript {
+        deny: case.denies.iter().filter(|(n, f, _, _)| *n as usize == node && *f == 0).map(|(_, _, d, k)| (*d, *k)).collect(),
+        dial_addrs: vec![],
+        protocols: vec!["/probe/1".into()],
+        keep_alive: true,
+        stream_timeout_ms: 0,
+    }
+}
+
+fn check(c: &ACase) -> Outcome {
+    let mut base = c.base.clone();
+    base.fields = 1;
+    let nn = base.nodes.clamp(1, 3) as usize;
+    let mode = c.mode % 3;
+    let mut ext = ListExt {
+        has_block: mode != 1,
+        has_allow: mode != 0,
+        blocked: (0..nn).map(|i| bits(c.blocked.get(i).cloned().unwrap_or(0))).collect(),
+        allowed: (0..nn).map(|i| bits(c.allowed.get(i).cloned().unwrap_or(0))).collect(),
+        seen_ev: vec![0; nn],
+        ..Default::default()
+    };
+    let mk_block = |i: usize| {
+        let mut b = ListBehaviour::<BlockedPeers>::default();
+        for p in bits(c.blocked.get(i).cloned().unwrap_or(0)) {
+            b.block_peer(p);
+        }
+        b
+    };
+    let mk_allow = |i: usize| {
+        let mut b = ListBehaviour::<AllowedPeers>::default();
+        for p in bits(c.allowed.get(i).cloned().unwrap_or(0)) {
+            b.allow_peer(p);
+        }
+        b
+    };
+    let r = match mode {
+        0 => life::run_with(&base, |i, log: SharedLog| BlockProbe { block: mk_block(i), probe: Probe::new(i as u8, 0, log, script_for(&base, i)) }, &mut ext),
+        1 => life::run_with(&base, |i, log: SharedLog| AllowProbe { allow: mk_allow(i), probe: Probe::new(i as u8, 0, log, script_for(&base, i)) }, &mut ext),
+        _ => life::run_with(&base, |i, log: SharedLog| ProbeBlockAllow { probe: Probe::new(i as u8, 0, log, script_for(&base, i)), block: mk_block(i), allow: mk_allow(i) }, &mut ext),
+    };
+    if let Some((sig, detail)) = r.fails.iter().find(|(s, _)| s.starts_with("C53:")) {
+        return Outcome::fail(sig.clone(), detail.clone());
+    }
+    // a failure of one of the interpreter's own oracles (C01/C02/... signatures) is reported as it is
+    if let Some((sig, detail)) = r.fails.first() {
+        return Outcome::fail(sig.clone(), detail.clone());
+    }
+    if !r.settled {
+        return Outcome::Inconclusive("world did not settle within the round bound".into());
+    }
+    let mut labels: Vec<&'static str> = vec![["mode:block+probe", "mode:allow+probe", "mode:probe+block+allow"][mode as usize]];
+    if ext.change_while_established > 0 {
+        labels.push("became-forbidden-while-established");
+    }
+    if ext.change_while_pending > 0 {
+        labels.push("became-forbidden-while-dial-pending");
+    }
+    if ext.changes > 0 {
+        labels.push("became-forbidden");
+    }
+    if ext.lifted > 0 {
+        labels.push("became-permitted");
+    }
+    if !ext.must_close.is_empty() {
+        labels.push("closed-by-list-change");
+    }
+    let denied = r.events.iter().flatten().any(|e| matches!(e, Ev::OutgoingError { err: ErrKind::Denied, .. } | Ev::IncomingError { err: ErrKind::Denied, .. }));
+    let denied_sync = r.models.iter().any(|m| m.ids.values().any(|x| x.sync_err == Some(ErrKind::Denied)));
+    if denied {
+        labels.push("denied-at-establishment");
+    }
+    if denied_sync {
+        labels.push("dial-denied");
+    }
+    if r.flags.established > 0 {
+        labels.push("established");
+    }
+    if r.flags.inbound_est > 0 {
+        labels.push("inbound_established");
+    }
+    if r.flags.two_node_links > 0 {
+        labels.push("swarm_to_swarm");
+    }
+    Outcome::pass_l(ext.change_while_established > 0 || ext.change_while_pending > 0, labels)
+}
+
+fn strategy(max_ops: usize) -> BoxedStrategy<ACase> {
+    let w = Weights { dial: 7, connect: 9, resolve_ok: 10, resolve_err: 1, inbound: 5, close: 1, disconnect: 1, remote_close: 1, notify: 0, poll: 6, step: 4, settle: 3 };
+    (
+        0u8..3,
+        // few peers blocked, most peers allowed at the start
+        proptest::collection::vec((any::<u8>(), any::<u8>(), any::<u8>()).prop_map(|(a, b, c)| a & b & c), 3),
+        proptest::collection::vec((any::<u8>(), any::<u8>(), any::<u8>()).prop_map(|(a, b, c)| a | b | c), 3),
+        life::case_strategy_ext(3, 1..=1, 1, 4..=max_ops, w, 9, 4, 8),
+    )
+        .prop_map(|(mode, blocked, allowed, base)| ACase { mode, blocked, allowed, base })
+        .boxed()
+}
+
+pub fn run(ctx: &mut Ctx) {
+    ctx.assume("transport, muxer and remote peers are simulated (simswarm); connection tasks run on the harness executor; idle timeout 1h so no timer fires");
+    ctx.assume("list changes are made between Swarm polls; a change has taken effect when block_peer/unblock_peer/allow_peer/disallow_peer returned");
+    let max_ops = ctx.tier.sel(50, 70);
+    ctx.check::<ACase>(
+        "world",
+        "programs of 4..50 world ops (dials with/without peer id in both directions, swarm-to-swarm connects, phantom inbound connections, transport outcomes, closes, block/unblock/allow/disallow of the 8 pool peers, generated schedules) over 1..3 swarms whose behaviour is #[derive(NetworkBehaviour)] {block, probe} / {allow, probe} / {probe, block, allow} with generated initial lists; oracle: no ConnectionEstablished (FromSwarm at the probe, SwarmEvent) for a peer that is blocked / not allowed when it is reported; at quiescence every connection that existed when its peer became blocked / disallowed has been closed and is_connected(p) is false for every forbidden p; non-trivial = a peer became forbidden while a connection to it was established or a dial to it pending; distinct by case hash",
+        ctx.n(40_000, 1_200_000),
+        &move || strategy(max_ops),
+        &check,
+    );
+}
